@@ -777,7 +777,7 @@ theorem wf_step (L : Limits) (s : Svc) (op : Op) (w : Wf s) : Wf (step L s op).1
           · exact w
           · exact ⟨w.core.addPeriodic now iv, w.acct, w.ex1, w.ex2, w.st1, w.run1, w.sp1⟩
   | cancel id =>
-    simp only [step, cancel]
+    simp only [step, cancel, cancelWith]
     have hm : Core s.nextId (s.records.map (markCanceled id)) s.periodic s.heap := by
       have := w.core.mark (markCanceled id) (fun p => p) (markCanceled_cases id) (fun p => ⟨rfl, rfl, rfl⟩)
       simpa using this
@@ -1013,7 +1013,7 @@ theorem hi_step (L : Limits) (s : Svc) (h : Hist) (op : Op) (w : Wf s) (i : HI s
       obtain ⟨r0, h0, rfl⟩ := List.mem_map.mp hr
       rw [(markCanceled_id id r0).1, (markCanceled_id id r0).2.2.2.1, (markCanceled_id id r0).2.2.2.2.1]
       exact i.req r0 h0
-    simp only [step, cancel]
+    simp only [step, cancel, cancelWith]
     split
     · refine ⟨?_, ?_, ?_, ?_⟩
       · rw [collected_snoc]; simp only [collectedOf, List.append_nil]
@@ -1255,14 +1255,16 @@ theorem dead_step (L : Limits) (id : Nat) (s : Svc) (op : Op) (d : Dead id s) (h
       intro r hr hid
       obtain ⟨r0, h0, rfl⟩ := List.mem_map.mp hr
       exact markCanceled_keeps j r0 (d.recs r0 h0 ((markCanceled_id j r0).1 ▸ hid))
-    simp only [step, cancel]
+    simp only [step, cancel, cancelWith]
     split
     · refine ⟨⟨hrecs, fun p hp => d.pers p (mem_erasePer.mp hp).1, ?_⟩, hle, by simp [startedOf]⟩
       intro e he hid
       have := d.rdy e he hid
       refine ⟨this.1, ?_⟩
-      simp only [List.contains_cons, Bool.or_eq_true]
-      exact Or.inr this.2
+      split
+      · simp only [List.contains_cons, Bool.or_eq_true]
+        exact Or.inr this.2
+      · exact this.2
     · exact ⟨⟨hrecs, d.pers, d.rdy⟩, hle, by simp [startedOf]⟩
   | collect now =>
     simp only [step, collect]
@@ -1375,15 +1377,18 @@ theorem cancel_true_dead (s : Svc) (h : Hist) (id : Nat) (w : Wf s) (i : HI s h)
         cases hf : findPer s.periodic id with
         | none => rfl
         | some p => exact absurd (findPer_some hf).2 (hnop p (findPer_some hf).1)
-      simp [cancel, h1, h2] at ht
+      simp [cancel, cancelWith, h1, h2] at ht
     · rfl
-  unfold cancel at ht ⊢
+  unfold cancel cancelWith at ht ⊢
   simp only at ht ⊢
   cases hp : findPer s.periodic id with
   | some pt =>
     simp only [hp]
     obtain ⟨hpt, hptid⟩ := findPer_some hp
-    refine ⟨⟨hrecs, fun p hp' => (mem_erasePer.mp hp').2, fun e he hid => ⟨hready e he hid, by simp⟩⟩, ?_⟩
+    -- the guard is closed on every successful cancel of a periodic entry: this is where the source shape read by the translator
+    -- (`cancelFlag->store(true)` outside the `if (!entry.canceled)` transition block) is used
+    have hg : Gen.Timer.svcCancelClosesGuardAlways = true := by decide
+    refine ⟨⟨hrecs, fun p hp' => (mem_erasePer.mp hp').2, fun e he hid => ⟨hready e he hid, by simp [hg]⟩⟩, ?_⟩
     exact hptid ▸ (w.core.ple pt hpt).2
   | none =>
     simp only [hp] at ht ⊢
@@ -1410,7 +1415,7 @@ theorem stopped_step (L : Limits) (s : Svc) (op : Op) (w : Wf s) (hs : s.life = 
   | schedAt now tp => simp [step, scheduleAt, hacc, hs, startedOf]
   | schedPer now iv => simp [step, schedulePeriodic, hacc, hs, startedOf]
   | cancel id =>
-    simp only [step, cancel]
+    simp only [step, cancel, cancelWith]
     split <;> exact ⟨hs, rfl⟩
   | collect now => simp [step, collect, hex, hs, startedOf]
   | hstart => simp [step, hstart, hin, hrd, hs, startedOf]
@@ -1495,7 +1500,7 @@ theorem records_kept (L : Limits) (s : Svc) (op : Op) (hop : ∀ now, op ≠ .co
           · exact same _ rfl
           · exact ⟨r, List.mem_append_left _ hr, rfl, rfl⟩
   | cancel id =>
-    simp only [step, cancel]
+    simp only [step, cancel, cancelWith]
     split <;> exact ⟨markCanceled id r, List.mem_map_of_mem hr, (markCanceled_id id r).1, (markCanceled_id id r).2.2.2.2.2⟩
   | collect now => exact absurd rfl (hop now)
   | hstart =>
